@@ -1,5 +1,6 @@
 //! Reference models. They never call Kolibrie code.
 pub mod boolfn;
+pub mod datalog;
 pub mod datalog_pos;
 pub mod expiry_fixpoint;
 pub mod lineage_tt;
@@ -14,6 +15,7 @@ pub mod window;
 pub fn selftest() -> Vec<String> {
     let mut errs = Vec::new();
     errs.extend(boolfn::selftest());
+    errs.extend(datalog::selftest());
     errs.extend(datalog_pos::selftest());
     errs.extend(expiry_fixpoint::selftest());
     errs.extend(lineage_tt::selftest());
